@@ -45,6 +45,14 @@ pvars == <<cfgs, pushedV, poppedV, open, used, bad>>
 
 EmptyCfg == [s |-> <<>>, p |-> <<>>]
 
+\* Guard against a blow-up of the configuration set (many concurrent pushes whose order nothing
+\* has observed yet): beyond MaxCfgs configurations the run is given up -- condition "Overflow",
+\* which is not a verdict -- and linearizability is no longer tracked until the next reset (the
+\* conservation conditions still are).  The harness bounds the pushes per concurrent history so
+\* that this does not happen.
+MaxCfgs == 4000
+Ovf == "Overflow" \in bad
+
 \* the state after the values of sequence s (top first) have been pushed sequentially
 PInitStack(s) ==
     /\ cfgs = {[s |-> s, p |-> <<>>]}
@@ -97,7 +105,8 @@ PCall(i, op, arg) ==
     IN
     /\ bad' = bad \cup (IF ok THEN {} ELSE {"Harness"})
     /\ IF ok
-       THEN /\ cfgs' = {[s |-> c.s, p |-> (i :> [op |-> op, arg |-> arg, lin |-> FALSE, res |-> 0]) @@ c.p] : c \in cfgs}
+       THEN /\ cfgs' = IF Ovf THEN cfgs ELSE
+                      {[s |-> c.s, p |-> (i :> [op |-> op, arg |-> arg, lin |-> FALSE, res |-> 0]) @@ c.p] : c \in cfgs}
             /\ open' = open \cup {i}
             /\ used' = used \cup {i}
             /\ pushedV' = IF op = "push" THEN pushedV \cup {arg} ELSE pushedV
@@ -110,12 +119,16 @@ PRet(i, op, res) ==
     THEN /\ bad' = bad \cup {"Harness"}
          /\ UNCHANGED <<cfgs, pushedV, poppedV, open, used>>
     ELSE
-    /\ cfgs' = UNION {RetCfgs(c, i, res) : c \in cfgs}
+    LET nc == IF Ovf THEN cfgs ELSE UNION {RetCfgs(c, i, res) : c \in cfgs}
+        big == Cardinality(nc) > MaxCfgs
+    IN
+    /\ cfgs' = IF big THEN {EmptyCfg} ELSE nc
     /\ open' = open \ {i}
     /\ poppedV' = IF op = "pop" /\ res # 0 THEN poppedV \cup {res} ELSE poppedV
     /\ bad' = bad
         \cup (IF op = "pop" /\ res # 0 /\ res \in poppedV THEN {"Dup"} ELSE {})
         \cup (IF op = "pop" /\ res # 0 /\ res \notin pushedV THEN {"Phantom"} ELSE {})
+        \cup (IF big THEN {"Overflow"} ELSE {})
     /\ UNCHANGED <<pushedV, used>>
 
 \* A library call panicked (it never returns; whether it took effect is left open).  No
@@ -140,10 +153,10 @@ PDrained(complete, empty) ==
 Linearizable == cfgs # {}
 
 Safe_C12 == Linearizable /\ bad \cap {"Dup", "Phantom", "Lost", "Panic"} = {}
-NoHarnessError == bad \cap {"Harness", "Incomplete"} = {}
+NoHarnessError == bad \cap {"Harness", "Incomplete", "Overflow"} = {}
 
 Violated == (IF Linearizable THEN {} ELSE {"NotLinearizable"}) \cup bad
 
 PropertyOf == [NotLinearizable |-> "C12", Dup |-> "C12", Phantom |-> "C12", Lost |-> "C12", Panic |-> "C12",
-               Harness |-> "HARNESS", Incomplete |-> "HARNESS", Unexplained |-> "HARNESS"]
+               Harness |-> "HARNESS", Incomplete |-> "HARNESS", Overflow |-> "HARNESS", Unexplained |-> "HARNESS"]
 =============================================================================
